@@ -159,8 +159,13 @@ def run(model, col, tier):
     # tests are read with single-assignment locals in place (the type tag and the signedness flag stay names)
     env63 = {k_: v_ for k_, v_ in _le63(vb, allow_impure=True).items() if k_ not in ("operationType", "unsigned", mn_) and not isinstance(v_, ast.JoinedStr)}
     suffix_if = []
-    for n in ast.walk(vb):
-        if isinstance(n, ast.If) and any(isinstance(x, ast.AugAssign) and isinstance(x.target, ast.Name) and x.target.id == mn_ for s in n.body for x in ast.walk(s)):
+    cands63 = [n for n in ast.walk(vb) if isinstance(n, ast.If) and any(isinstance(x, ast.AugAssign) and isinstance(x.target, ast.Name) and x.target.id == mn_ for s in n.body for x in ast.walk(s))
+               and "operationType" in unparse(_rs63(n.test, env63))]
+    # the innermost such test is the suffix condition (an enclosing `if <memo miss>:` may mention the type tag through its key)
+    for n in cands63:
+        if any(m is not n and any(x is m for x in ast.walk(n)) for m in cands63):
+            continue
+        if True:
             rt_ = _rs63(n.test, env63)
             if "operationType" in unparse(rt_):
                 n2 = _copy63.copy(n)
